@@ -19,6 +19,8 @@ mod context;
 mod storage;
 mod stored_value;
 use self::arena::Arena;
+#[cfg(leptos_verif)]
+pub use arena::verif_arena_len;
 pub use arc_stored_value::ArcStoredValue;
 #[cfg(feature = "sandboxed-arenas")]
 pub use arena::sandboxed::Sandboxed;
